@@ -138,8 +138,8 @@ func Sandwich(r *hx.Rand, s *SchemaDesc, req *Request) bool {
 		occ := func(sels []*Sel) *Sel {
 			f := &Sel{Kind: "field", Alias: key, Name: c.f.Name, Sels: sels}
 			for _, a := range c.f.Args {
-				if a.Name == "r" {
-					f.Args = append(f.Args, ArgUse{Name: "r", Value: "1"})
+				if a.role() == "r" {
+					f.Args = append(f.Args, ArgUse{Name: a.Name, Value: "1"})
 				}
 			}
 			return f
